@@ -617,10 +617,13 @@ func runC17(r *Run) {
 		"random strings of 1..40 characters over that alphabet plus {^ : TAB CR digits upper-case _ @ { quotes , # control characters, 3- and 4-byte runes}, and fragment-grammar strings; " +
 		"plus randomly placed blocks of 4096 consecutive strings of the next length; each evaluated with ValidateRefGlob and ValidatePathGlob; a sample rendered as plain/single/double quoted scalars of on.push filters through Linter.Lint. " +
 		"Non-trivial = distinct string with a definite reference verdict that expects a report for at least one kind or satisfies the antecedent (accepted as ref) of the ref=>path implication " +
-		"(all of them for length <= 4, a 1/64 hash sample of the rest), plus distinct (key, style, pattern) triples with at least one glob diagnostic through Lint."
+		"(all of them for length <= 4, a 1/64 hash sample of the rest), plus distinct (key, style, pattern) triples with at least one glob diagnostic through Lint. " +
+		"Rule level: whole workflows whose on: mapping lists 1-5 events in random order (push, pull_request, pull_request_target, workflow_run, filter-less webhook events, and workflow_dispatch / schedule / repository_dispatch / workflow_call), " +
+		"webhook events carrying 0-3 filter keys with 1-3 patterns as scalar, block or flow sequence, plain or quoted; non-trivial = distinct workflow with at least one due glob diagnostic."
 	r.Assume("patterns are valid UTF-8 without NUL and BOM (text/scanner reports those itself; the statement says nothing about them)")
 	r.Assume("column 0 is the documented 'no column' value: empty pattern, leading-space path report, and every report made after the scanner consumed a line feed (InvalidGlobPattern.Column doc comment, pinned by TestValidateGlobErrorColumn)")
 	r.Assume("don't-care (reference gives no verdict, invariants still checked): single-character class [x]; class contents with '\\', '[', a '-' that is not a range operator, or a line break; path patterns starting/ending with a space; for refs: ref-forbidden characters inside a class, Git's multi-character rules ('..', '//', '/.', leading '.', '@{', '.lock', lone '@'), an escaped backslash")
+	r.Assume("rule level: diagnostics of kinds other than glob (events, syntax-check, ...) are foreign to the property and ignored; a workflow whose events, filters, pattern texts or pattern positions the parser reads differently from what was written is skipped and counted (floor: < 10%)")
 	r.Assume("Lint-level scalars are written without YAML escapes (plain / '...' / \"...\"), verified by a parser round trip; others are skipped and counted")
 
 	var fams []*Family
@@ -692,12 +695,14 @@ func runC17(r *Run) {
 		}
 		st.flush(c)
 	}})
+	fams = append(fams, c17WfFamily(r)) // rule level: whole workflows, see c17_wf.go
 	r.RunFamilies(fams)
 	if r.ReplayOf != nil {
 		return
 	}
 	r.SetExhaustive(true)
 	r.Extra("exhaustive_bound", fmt.Sprintf("all strings of length <= %d over the 16-symbol alphabet, both validators", maxLen))
+	c17WfFloors(r)
 
 	// coverage floors
 	floor := func(name string, min int64) {
